@@ -600,10 +600,27 @@ def derived_relations(system: Any, msgs: Sequence[Tuple[str, str]] = ()) -> List
             seqs = [[x for x in q if x is not h] for q in seqs]
         return out
 
+    def plain_inconsistency(k: Any) -> bool:
+        seen: List[Any] = []
+        todo = [(k, ())]
+        while todo:
+            x, path = todo.pop()
+            if any(x is y for y in path) or len(path) > 50:
+                return False
+            bases = [b for b in x.baseobjects if b is not None]
+            if len({id(b) for b in bases}) != len(bases):
+                return False
+            todo.extend((b, path + (x,)) for b in bases)
+        return True
+
     for c in classes:
         mro = list(c.mro())
         if c3(c) is None:
-            continue        # Python rejects this class statement (duplicate base, no consistent MRO, cycle): C05 covers the report
+            # Python rejects this class statement (duplicate base, no consistent MRO, cycle): C05 covers the report.  What C02 says
+            # about a linearisation (the class first, each resolved base once) still applies to the order pydoctor falls back to,
+            # unless "each base once" has no meaning (a base written twice, or an inheritance cycle, somewhere above the class).
+            if not plain_inconsistency(c):
+                continue
         if not mro or mro[0] is not c:
             bad.append(f"MroStartsWithSelf:{c.fullName()}")
         for b in c.baseobjects:
